@@ -122,7 +122,7 @@ Definition dlook (vals : list (chan * oq)) (c : chan) : oq := match alookup c va
 Lemma all_const_sample chs : forall vals, all_const chs = Some vals ->
   forall d c t, usample (WAtom d chs) c t = dlook vals c.
 Proof.
-  induction chs as [|[k [v|es]] chs IH]; intros vals H d c t; cbn in *; try discriminate.
+  induction chs as [|[k [v|es|fa fb]] chs IH]; intros vals H d c t; cbn in *; try discriminate.
   - inversion H; reflexivity.
   - destruct (all_const chs) as [r|] eqn:E; cbn in H; [|discriminate]. inversion H; subst. unfold dlook; cbn.
     destruct (N.eqb c k); [reflexivity|]. apply (IH r eq_refl d c t).
